@@ -6,6 +6,6 @@ __all__ = ['Math']
 
 
 class Math(span_token.SpanToken):
-    pattern = re.compile(r'(\${1,2})([^$]+?)\1')
+    pattern = re.compile(r'(?<!\\)(\${1,2})([^$]+?)(?<!\\)\1')
     parse_inner = False
     parse_group = 0
